@@ -333,7 +333,7 @@ def parseDefault (s : String) : Option Value :=
   match s.toList with
   | ['t', 'r', 'u', 'e'] => some (.bool true)
   | ['f', 'a', 'l', 's', 'e'] => some (.bool false)
-  | '-' :: d :: ds => (digitsVal (d :: ds) 0).map fun n => numI (-(n : Int))
+  | '-' :: d :: ds => (digitsVal (d :: ds) 0).map fun n => numI (-(Int.ofNat n))
   | '"' :: rest =>
     match rest.reverse with
     | '"' :: body => if body.contains '\\' then none else some (.str (String.ofList body.reverse))
@@ -479,14 +479,15 @@ def arrayIndexOfB : List VArg → Heap → Eff
     | none => .unmodelled
   | _, _ => .unmodelled
 
+/-- `index if index is not None else len - 1` -/
+def idxOr (len : Nat) : Value → Option Rat
+  | .null => some (Rat.ofInt ((len : Int) - 1))
+  | .num q => some q
+  | _ => none
+
 def arrayLastIndexOfB : List VArg → Heap → Eff
   | [.one (.arr r), .one v, .one ix], h => match getArr h r with
-    | some xs =>
-      let index : Option Rat := match ix with
-        | .null => some (Rat.ofInt ((xs.length : Int) - 1))
-        | .num q => some q
-        | _ => none
-      match index with
+    | some xs => match idxOr xs.length ix with
       | none => .unmodelled
       | some q =>
         if rle (ofNat xs.length) q then .fail (numI (-1))
@@ -634,11 +635,7 @@ def stringIndexOfB : List VArg → Heap → Eff
 
 def stringLastIndexOfB : List VArg → Heap → Eff
   | [.one (.str s), .one (.str t), .one ix], _ =>
-    let index : Option Rat := match ix with
-      | .null => some (Rat.ofInt (((chars s).length : Int) - 1))
-      | .num q => some q
-      | _ => none
-    match index with
+    match idxOr (chars s).length ix with
     | none => .unmodelled
     | some q =>
       if rle (ofNat (chars s).length) q then .fail (numI (-1))
